@@ -283,3 +283,96 @@ pub fn full_collision_pair(t: &mut Tape, base: &Pos) -> Option<Pair> {
     }
     None
 }
+
+/// A legal position whose 64-bit key has a chosen value (0, all ones, ...: values a program might use
+/// as "no key yet"). Same construction: the switches whose words add up to key(base) ^ target are
+/// switched on.
+pub fn position_with_key(t: &mut Tape, base: &Pos, target: u64) -> Option<Pos> {
+    let wk = base.king_sq(true)?;
+    let bk = base.king_sq(false)?;
+    let mut sw: Vec<(Sq, Pc)> = vec![];
+    for s in 0..64u8 {
+        if base.board[s as usize].is_some() {
+            continue;
+        }
+        let r = rank_of(s);
+        for white in [true, false] {
+            let k = if white { bk } else { wk };
+            if r == 0 || r == 7 {
+                let (df, dr) = ((file_of(k) - file_of(s)).abs(), (rank_of(k) - r).abs());
+                if !((df == 1 && dr == 2) || (df == 2 && dr == 1)) {
+                    sw.push((s, Pc::new(white, [Kind::N, Kind::N, Kind::B][t.pick(3)])));
+                }
+            } else if !(rank_of(k) == r + if white { 1 } else { -1 } && (file_of(k) - file_of(s)).abs() == 1) {
+                sw.push((s, Pc::new(white, Kind::P)));
+            }
+        }
+    }
+    for i in (1..sw.len()).rev() {
+        let j = t.pick(i + 1);
+        sw.swap(i, j);
+    }
+    sw.truncate(120);
+    let mut basis: Vec<Option<(u64, u128)>> = vec![None; 64];
+    let want = key_of(base) ^ target;
+    let mut deps: Vec<u128> = vec![];
+    for (j, (s, pc)) in sw.iter().enumerate() {
+        let mut v = word(*pc, *s);
+        let mut comb = 1u128 << j;
+        while v != 0 {
+            let lead = 63 - v.leading_zeros() as usize;
+            match basis[lead] {
+                Some((bv, bc)) => {
+                    v ^= bv;
+                    comb ^= bc;
+                }
+                None => {
+                    basis[lead] = Some((v, comb));
+                    break;
+                }
+            }
+        }
+        if v == 0 {
+            deps.push(comb);
+        }
+    }
+    // one solution, then the others (solution xor dependencies) until one is a legal position
+    let (mut v, mut s0) = (want, 0u128);
+    while v != 0 {
+        let lead = 63 - v.leading_zeros() as usize;
+        match basis[lead] {
+            Some((bv, bc)) => {
+                v ^= bv;
+                s0 ^= bc;
+            }
+            None => return None,
+        }
+    }
+    let build = |comb: u128| -> Option<Pos> {
+        let mut p = base.clone();
+        for i in 0..sw.len() {
+            if comb >> i & 1 == 1 {
+                let (s, pc) = sw[i];
+                if p.board[s as usize].is_some() {
+                    return None;
+                }
+                p.board[s as usize] = Some(pc);
+            }
+        }
+        (p.validate().is_ok() && key_of(&p) == target).then_some(p)
+    };
+    if let Some(p) = build(s0) {
+        return Some(p);
+    }
+    for (i, d) in deps.iter().enumerate() {
+        if let Some(p) = build(s0 ^ d) {
+            return Some(p);
+        }
+        for e in deps.iter().skip(i + 1) {
+            if let Some(p) = build(s0 ^ d ^ e) {
+                return Some(p);
+            }
+        }
+    }
+    None
+}
